@@ -1069,6 +1069,27 @@ func (vf *VerifyFunc) special(st *State, fr *Frame, in ssa.Instruction, key stri
 			alts = append(alts, and(not(eq(w, "iface_nil")), or(eq("x", w), "(wraps "+w+" x)")))
 		}
 		st.assume("(forall ((x Iface)) (! (= (wraps " + r.Tm + " x) " + or(alts...) + ") :pattern ((wraps " + r.Tm + " x))))")
+		// what the message quotes (ghost `quotes(err, s)`, if declared): exactly its string operands and whatever
+		// the errors it wraps quote
+		if _, has := vf.eng.cs.Ghosts["quotes"]; has {
+			if c, ok := cc.Args[0].(*ssa.Const); ok && c.Value != nil && len(args) >= 2 && args[1].S == SSlice {
+				verbs := formatVerbs(constString(c))
+				h := st.heapGet("E:Iface", heapSortFor("E:Iface", SIface))
+				strTag := fmt.Sprint(vf.eng.typeTag(types.Typ[types.String]))
+				var qalts []string
+				for i, v := range verbs {
+					if v == 'w' {
+						continue
+					}
+					elem := st.named(SIface, "operand", sel(sel(h, "(s_base "+args[1].Tm+")"), "(sidx (s_off "+args[1].Tm+") "+fmt.Sprint(i)+")"))
+					qalts = append(qalts, and(eq("(i_tag "+elem+")", strTag), eq("qs", "(unbox_Str (i_val "+elem+"))")))
+				}
+				for _, w := range wrapped {
+					qalts = append(qalts, and(not(eq(w, "iface_nil")), "(g_quotes "+w+" qs)"))
+				}
+				st.assume("(forall ((qs Str)) (! (= (g_quotes " + r.Tm + " qs) " + or(qalts...) + ") :pattern ((g_quotes " + r.Tm + " qs))))")
+			}
+		}
 		return r, true
 	case "fmt.Sprintf":
 		if c, ok := cc.Args[0].(*ssa.Const); ok && c.Value != nil && len(args) >= 2 && args[1].S == SSlice {
